@@ -6,20 +6,25 @@ sys.path.insert(0, os.path.join(ROOT, "checklib"))
 import props, claims
 allp = [json.loads(l) for l in open(os.path.join(ROOT, "properties.jsonl"))]
 hooks_commits = claims.HOOK_COMMITS
+obl = json.load(open(os.path.join(ROOT, "lean", "obligations.json")))
+def has_obl(pid):
+    cfg = props.PROPS[pid]
+    return pid in obl or all(d in obl for d in cfg.get("proof_of", ["<none>"]))
+claimed = [p for p in sorted(props.PROPS) if has_obl(p) and p in claims.CLAIMS]
 checks = []
-for pid in sorted(props.PROPS):
+for pid in claimed:
     c = claims.CLAIMS[pid]
     checks.append(dict(property_id=pid, quick_cmd="./check %s --tier quick" % pid, thorough_cmd="./check %s --tier thorough" % pid,
         evidence_file="evidence/%s.json" % pid, replay_cmd_template="./check %s --replay {path}" % pid, engine="lean-model+harness",
         level_claimed=dict(category=c.get("category", "proof"), text=c["text"], design_ref="DESIGN.md §7 " + pid),
         level_note=c["note"], technique=c["technique"]))
-na = [dict(property_id=p["id"], reason=claims.NOT_CLAIMED.get(p["id"], "not yet claimed: model/check under construction (DESIGN.md §9)")) for p in allp if p["id"] not in props.PROPS]
+na = [dict(property_id=p["id"], reason=claims.NOT_CLAIMED.get(p["id"], "not yet claimed: the Lean theorems for this property are still being proved (model and correspondence suite exist; DESIGN.md §9)")) for p in allp if p["id"] not in claimed]
 m = dict(version=1, setup_cmd="./setup.sh",
     hooks=dict(guard="rbpf_verif", enable='RUSTFLAGS="--cfg rbpf_verif" (set by ./check for the harness build only)',
                baseline_off_cmd="cd /repo && cargo test --workspace --no-fail-fast --offline", source_commits=hooks_commits, add_only=True),
-    engines=[dict(name="lean-model+harness", path="lean/ + harness/", serves_properties=sorted(props.PROPS),
+    engines=[dict(name="lean-model+harness", path="lean/ + harness/", serves_properties=claimed,
                   kind_free_text="Lean 4 model and theorems (lake project RbpfModel, compiled driver rbpf_model) tied to /repo by the Rust correspondence harness (path dependency on /repo, rebuilt on every run)")],
     checks=checks, not_applicable=na,
     notes="Proof obligations per property: lean/obligations.json. Known findings: known_findings.jsonl. See DESIGN.md.")
 json.dump(m, open(os.path.join(ROOT, "MANIFEST.json"), "w"), indent=1)
-print("claimed:", sorted(props.PROPS), "| not claimed:", [x["property_id"] for x in na])
+print("claimed:", claimed, "| not claimed:", [x["property_id"] for x in na])
